@@ -62,7 +62,26 @@ fn main() {
     };
     let mut rep = Report::new(&prop, rule);
     let mut batch: Vec<(String, String, bool, Option<String>)> = Vec::new();
+    // watchdog: an operation of the implementation that does not return (or a run that as a whole takes many times
+    // longer than it should) is a finding, not something to wait for. Per operation: the op line is left in
+    // BP7H_LASTLINE and the process aborts (the check script reports that line). Whole run: exit status 97.
+    static OP_START: std::sync::Mutex<Option<(std::time::Instant, String)>> = std::sync::Mutex::new(None);
+    {
+        let per_op = std::env::var("BP7H_OP_SECS").ok().and_then(|x| x.parse().ok()).unwrap_or(180u64);
+        let total = std::env::var("BP7H_MAX_SECS").ok().and_then(|x| x.parse().ok()).unwrap_or(if tier == "thorough" { 5 * 3600 } else { 2400u64 });
+        let t0 = std::time::Instant::now();
+        std::thread::spawn(move || loop {
+            std::thread::sleep(std::time::Duration::from_secs(2));
+            if let Ok(g) = OP_START.lock() {
+                if let Some((st, line)) = g.as_ref() {
+                    if st.elapsed().as_secs() > per_op { note_line(line); eprintln!("watchdog: the operation did not return within {} s", per_op); std::process::abort(); }
+                }
+            }
+            if t0.elapsed().as_secs() > total { eprintln!("watchdog: the run did not finish within {} s", total); std::process::exit(97); }
+        });
+    }
     let mut emit = |ctx: &mut Ctx, rep: &mut Report, line: String| {
+        if let Ok(mut g) = OP_START.lock() { *g = Some((std::time::Instant::now(), if line.len() > 4096 { line[..line.char_indices().map(|(i, _)| i).take_while(|i| *i <= 4096).last().unwrap_or(0)].to_string() } else { line.clone() })); }
         match exec(&line, &mut ctx.model) {
             Some(e) => {
                 if let Some(f) = &e.oracle_fail {
